@@ -488,6 +488,24 @@ impl MqttShared {
         }
     }
 
+    /// Drop the registration made by `wait_response()` for a packet that could not be written
+    pub(super) fn cancel_response(&self, id: num::NonZeroU16) {
+        let mut queues = self.queues.borrow_mut();
+        if let Some(item) = queues.inflight.back()
+            && item.0 == id
+        {
+            queues.inflight.pop_back();
+            queues.inflight_ids.remove(&id);
+
+            // the slot is free again, wake up queued request
+            while let Some(tx) = queues.waiters.pop_front() {
+                if tx.send(()).is_ok() {
+                    break;
+                }
+            }
+        }
+    }
+
     pub(super) fn wait_readiness(&self) -> Option<pool::Receiver<()>> {
         let mut queues = self.queues.borrow_mut();
 
